@@ -1,6 +1,6 @@
 (* Proofs/DiskStateProofs.v — disk round trip, from effects to the state of the destination. *)
 From Coq Require Import ZArith List Bool Lia.
-Require Import PyBase GenDisk Disk ThomsonDos DiskDefs DiskLoopProofs TapeStateProofs EffectState.
+Require Import PyBase GenDisk Disk ThomsonDos DiskDefs DiskReadProofs DiskLoopProofs TapeStateProofs EffectState.
 Import ListNotations.
 Open Scope Z_scope.
 
@@ -26,4 +26,25 @@ Proof.
   - rewrite Heff. intros Hnd i f Hi Hf.
     apply (disk_extract_directory (target_of into arch) files fs0 i (nth i files []) f Hnd); [|exact Hf].
     apply nth_error_nth'. lia.
+Qed.
+
+(* TOP (C07): the same for an image the tools did not write.  Whatever the destination held
+   before (fs0 is arbitrary: longer, shorter or other files under the same names), after the
+   extraction every live file of side i is read back with exactly its bytes at side<i>/LABEL -
+   provided no two live files claim one path *)
+Theorem third_party_extract_directory : forall (is_fd v : bool) (raw : list Z) (img : image) (into : option (list Z)) (arch : list Z) (fs0 : fsmap),
+  load_image is_fd raw = Ok img ->
+  forallb tool_readable img = true -> forallb names_printable img = true ->
+  existsb (Z.eqb 0) (target_of into arch) = false ->
+  exists files : list (list dos_file),
+    map dos_files img = map Some files /\
+    (NoDup (write_paths (d_effects (disk_extract is_fd v into arch raw))) ->
+     forall (i : nat) (fl : list dos_file) (f : dos_file), nth_error files i = Some fl -> In f fl ->
+       fs_read (apply_effects fs0 (d_effects (disk_extract is_fd v into arch raw)))
+               (path_join (side_dir (target_of into arch) i) (dos_label f)) = Some (d_content f)).
+Proof.
+  intros is_fd v raw img into arch fs0 Hload Htr Hnp Htgt.
+  destruct (disk_read_exact is_fd v raw img into arch Hload Htr Hnp Htgt) as (files & Hfiles & _ & _ & Heff & _).
+  exists files. split; [exact Hfiles|]. rewrite Heff. intros Hnd i fl f Hi Hf.
+  now apply disk_extract_directory with (fl := fl).
 Qed.
